@@ -11,7 +11,12 @@ import Mathlib.Tactic.Linarith
   included; NaN and ±∞ are rejected; the accepted value is stored unchanged.  The six ranges and
   the serde(try_from) attribute of each type are re-read from the source.  Text and JSON routes
   are the exact decimal value rounded to nearest-even (model validated on >10⁶ strings against
-  Rust's parser and serde_json) followed by the same range check.
+  Rust's parser and serde_json; correct rounding is NOT proved) followed by the same range check.
+  Two renderings of the range check appear below: the generic `tryFrom` (scalar comparisons, bounds
+  from the regenerated `Gen.*_LO/HI`) and the bit-level `tryFromBits` (bounds `boundBits`, typed in).
+  They are tied at run time, not by a theorem: the driver's `rangecheck` request compares the bit
+  patterns of the regenerated constants with `boundBits` on every run (unit `bounded`), and unit
+  `f64cmp` compares the bit-level order with Lean's and Rust's float comparison.
 -/
 namespace IPT.C18
 open IPT IPT.F64
@@ -212,7 +217,12 @@ theorem textRoute_eq_number_route (lo hi : Nat) (s : String) (b : Nat) (hb : (pa
 /-- **the JSON route agrees with the text route** on every string both grammars read to the same
     pattern, for a type that carries `serde(try_from = "f64")` (all six do: `json_checked_all`):
     a value too large for f64 is an error on the JSON route and an infinity - rejected - on the
-    text route -/
+    text route.  The hypothesis carries the grammar agreement: it holds for every JSON number
+    (the JSON number grammar is contained in Rust's; validated on the string stream, not proved) and
+    fails exactly on the strings only Rust's grammar reads - `+1`, `01`, `1.`, `.5`, `inf`, `nan` - which
+    the text route accepts or rejects by value and the JSON route rejects as malformed: on those the
+    routes differ by design of the two grammars, and "the three routes agree" is read as agreement
+    on what each route can express (DESIGN 14.3.18). -/
 theorem jsonRoute_eq_textRoute (lo hi : Nat) (hlo : isFinite lo = true) (hhi : isFinite hi = true)
     (s : String) (h : (parseJson s).bits? = (parseRust s).bits?) :
     jsonRoute true lo hi s = textRoute lo hi s := by
